@@ -277,6 +277,9 @@ func (e *engine) check(prop string) *checkResult {
 		for a := range vc.assumed {
 			res.assumptions[a] = true
 		}
+		for a := range vc.c.usedAxioms {
+			res.assumptions[a] = true
+		}
 		for _, n := range vc.c.notes {
 			res.notes[n] = true
 		}
